@@ -26,7 +26,8 @@ def run(cx):
                  ("R07b", "components first: append guarded by 'all present sub-components done'; append and mark paired"),
                  ("R07c", "cycles raise ValueError"),
                  ("R07d", "reports are assembled in dependency order from already built component graphs"),
-                 ("R07e", "graph searches over builds / commits prune by membership only, never by ordering of allocation ids")):
+                 ("R07e", "graph searches over builds / commits prune by membership only, never by ordering of allocation ids"),
+                 ("R07f", "every build number of a build commit resolves to its report build (what parent repositories look pins up in)")):
         cx.rule(r, t)
     init = cx.func(REL, "ReposCollection.__init__", "R07a")
     mrd = cx.func(REL, "ReposCollection.make_reports_data", "R07d")
@@ -128,6 +129,7 @@ def run(cx):
         cx.ob("R07d", l, ok, "each id is resolved to its own repository" if ok else "repository lookup altered", stmt="lookup")
     # ------------------------------------------------------------------ R07e
     cx.guard(_r07e, cx, repo)
+    cx.guard(_r07f, cx, repo)
 
 
 CONTROL = """
@@ -165,3 +167,55 @@ def _r07e(cx, repo):
         cx.ob("R07e", c, False, f"`{norm(c)}` orders builds / commits by their allocation id inside a graph search: ids grow with discovery order, not with ancestry, "
               f"so on a merged history builds of a side line are pruned (a component build is then not recorded at the parent build that ships it)")
     cx.ob("R07e", REL, True, f"{n_loops} search loops scanned, {len(hits)} ordering comparisons on ids", construct=f"{REL}::graph searches", stmt="scan")
+
+
+def _r07f(cx, repo):
+    """Parent repositories resolve a pinned component version through the component graph's build-number map.  A pin may
+    name ANY of the numbers a build commit carries, so (structural necessary condition of the first sentence): the branch
+    reader files the build under every element of the numbers list the detector returned, keyed by that element; the graph
+    constructor copies every entry of the branch map; the pin look-up uses the same key form."""
+    rb = [f for m, q, f in repo.functions({REL}) if f.name == "_read_branch"]
+    cx.need(len(rb) == 1, "R07f", f"{REL}::_read_branch", "branch reader")
+    rb = rb[0]
+    # the list of numbers: second..third element of what _mk_rcommits returns, bound in the reader
+    binds = [st for st in walk_local(rb) if isinstance(st, ast.Assign) and isinstance(st.value, ast.Call) and call_name(st.value) == "_mk_rcommits" and isinstance(st.targets[0], ast.Tuple)]
+    cx.need(len(binds) == 1 and len(binds[0].targets[0].elts) == 4, "R07f", rb, "result of _mk_rcommits")
+    nums = norm(binds[0].targets[0].elts[2])
+    built = norm(binds[0].targets[0].elts[1])
+    stores = [n for n in walk_local(rb) if isinstance(n, ast.Assign) and isinstance(n.targets[0], ast.Subscript) and is_name(n.targets[0].value, "bn_map")]
+    cx.at_least("R07f", "stores into the build-number map", len(stores), 2)
+    own = 0
+    for st in stores:
+        loops = enclosing_loops(st)
+        lp = next((l for l in loops if isinstance(l, ast.For) and norm(l.iter) == nums), None)
+        key = st.targets[0].slice
+        ok = lp is not None and isinstance(lp.target, ast.Name) and norm(key) == f"{lp.target.id}.as_tuple()" \
+            and not any(isinstance(x, (ast.Break, ast.Continue)) for x in ast.walk(lp) if enclosing_loops(x) and enclosing_loops(x)[0] is lp)
+        if ok:
+            fs = [norm(e) for e, pol in facts(lp) if pol] + ["not " + norm(e) for e, pol in facts(lp) if not pol]
+            ok = not any(nums in f and ("len(" in f or "[" in f) for f in fs)
+        own += norm(st.value) == built
+        cx.ob("R07f", st, ok, f"filed under every number of `{nums}`, keyed by that number" if ok else
+              f"the build is not filed under every element of `{nums}` (key `{norm(key)}`): a parent pinning another number of the same commit does not find the build, "
+              "its pin move goes unreported and the component build is attributed to a later parent build")
+    cx.ob("R07f", rb, own >= 1, f"the new report build `{built}` is filed" if own else f"the new report build `{built}` is never filed in the build-number map", stmt="files the new build")
+    init = cx.func(REL, "RGraph.__init__", "R07f")
+    cp = [l for l in walk_local(init) if isinstance(l, ast.For) and norm(l.iter).endswith("bn_map.items()")]
+    ok = len(cp) == 1
+    if ok:
+        l = cp[0]
+        k = norm(l.target.elts[0]) if isinstance(l.target, ast.Tuple) else None
+        sts = [n for n in ast.walk(l) if isinstance(n, ast.Assign) and norm(n.targets[0]) == f"self.bn_map[{k}]"]
+        ok = len(sts) == 1 and not any(isinstance(x, (ast.Break, ast.Continue)) for x in ast.walk(l))
+        if ok and parent(sts[0]) is not l:
+            # a guard is harmless only if it cannot drop a number: "not filed yet" on the same map and key
+            g = parent(sts[0])
+            ok = isinstance(g, ast.If) and parent(g) is l and norm(g.test) in (f"{k} not in self.bn_map", f"not {k} in self.bn_map") and sts[0] in g.body
+    cx.ob("R07f", cp[0] if cp else init, ok, "every entry of a branch's map is copied into the graph's map" if ok else "the graph's build-number map does not receive every entry of the branch map")
+    look = [c for m, q, f in repo.functions({REL}) for c in walk_local(f) if isinstance(c, ast.Call) and call_name(c) == "get" and norm(c.func.value).endswith("bn_map") ]
+    look += [n for m, q, f in repo.functions({REL}) for n in walk_local(f) if isinstance(n, ast.Subscript) and isinstance(n.ctx, ast.Load) and norm(n.value).endswith(".bn_map")]
+    cx.at_least("R07f", "pin look-ups", len(look), 1)
+    for c in look:
+        key = c.args[0] if isinstance(c, ast.Call) else c.slice
+        ok = norm(key).endswith(".as_tuple()") or isinstance(key, ast.Name)
+        cx.ob("R07f", c, ok, "pins are looked up by the number's tuple form" if ok else f"pin look-up key `{norm(key)}` is not the tuple form the map is keyed by")
